@@ -1,7 +1,9 @@
 """Cluster checks shared by C07 and C08.
 
   * fact F4: the order of operations in the Ready arm of raftexample/raft.go serveChannels, extracted from the source on every run
-    (persist-before-send/apply/acknowledge is the hypothesis of the recovery theorems);
+    (persist-before-send/apply/acknowledge is the hypothesis of the recovery theorems); F4d: the wal.Save step is unconditional.  Its
+    BEHAVIOURAL counterpart is the readyloop suite (vlib/readygen.py + harness/readyloop.go): the real Ready loop of one node, every
+    externalisation judged against what a restart would read from disk at that moment;
   * the `apply` engine differential: random overlapping Ready batches through the real entriesToApply/publishEntries vs Apply.publish;
   * the `cluster` engine: real node processes on loopback, concurrent clients, SIGKILL/restart/membership faults, porcupine,
     per-node agreement, ledger of acknowledged writes (harness/cluster.go) — exploration, not proof;
@@ -28,6 +30,12 @@ F4_CALLS = [("saveSnap", r"rc\.saveSnap\("), ("wal.Save", r"rc\.wal\.Save\("), (
             ("publishSnapshot", r"rc\.publishSnapshot\("), ("raftStorage.Append", r"rc\.raftStorage\.Append\("),
             ("transport.Send", r"rc\.transport\.Send\("), ("publishEntries", r"rc\.publishEntries\("),
             ("maybeTriggerSnapshot", r"rc\.maybeTriggerSnapshot\("), ("Advance", r"rc\.Node\.Advance\(")]
+
+
+F4D_SUMMARY = ("fact F4d broken: in the Ready arm of serveChannels the call rc.wal.Save(rd.HardState, rd.Entries) is nested inside a conditional "
+               "(brace depth %s) or does not save the Ready's hard state and entries (arguments as expected: %s): some Readys are sent, applied and "
+               "acknowledged without being persisted (a Ready without entries can carry a new term and a just-granted vote); Recover.acked_survives / "
+               "rep_save and RS.C08.acked_survives_all_restart assume term, vote and entries are on disk before anything leaves the node")
 
 
 def strip_go_comments(src):
@@ -84,7 +92,8 @@ def ready_arm(src):
 
 
 def fact_f4(R, broken_is_violation=True):
-    """extract the order of the Ready arm; obligations F4a (exact order), F4b (persist before send/apply), F4c (write errors checked)"""
+    """extract the order of the Ready arm; obligations F4a (exact order), F4b (persist before send/apply), F4c (write errors checked),
+    F4d (the persist step is unconditional).  The behavioural counterpart of F4 is the readyloop suite (vlib/readygen.py)."""
     path = os.path.join(core.REPO, RAFT_GO)
     try:
         arm = ready_arm(open(path).read())
@@ -117,13 +126,27 @@ def fact_f4(R, broken_is_violation=True):
     unchecked = [n for n, rx in (("wal.Save", r"^\s*rc\.wal\.Save\("), ("saveSnap", r"^\s*rc\.saveSnap\(")) if re.search(rx, arm, re.M)]
     R.oblige("F4c: the results of wal.Save and saveSnap are not discarded", "fact", not unchecked,
              "discarded: " + ", ".join(unchecked) if unchecked else "both errors are tested")
+    # F4d: the persist step is unconditional.  The call being present and in order (F4a/b) says nothing if it sits inside a condition
+    # (seeded change: `if len(rd.Entries) > 0 { ...wal.Save... }` - a Ready without entries can carry a new term and a granted vote).
+    calls = list(re.finditer(r"rc\.wal\.Save\(", arm))
+    depth, args_ok = None, False
+    if len(calls) == 1:
+        pre = re.sub(r'"(?:\\.|[^"\\])*"|`[^`]*`', '""', arm[:calls[0].start()])
+        depth = pre.count("{") - pre.count("}")
+        args_ok = re.match(r"rc\.wal\.Save\(\s*rd\.HardState\s*,\s*rd\.Entries\s*\)", arm[calls[0].start():]) is not None
+    uncond = depth == 0 and args_ok
+    R.oblige("F4d: wal.Save(rd.HardState, rd.Entries) runs for EVERY Ready — the call is not nested inside any conditional of the arm (only its own "
+             "`if err := ...; err != nil`), and saves the Ready's hard state and entries", "fact", uncond,
+             "brace depth %s at the call, arguments %s" % (depth, "rd.HardState, rd.Entries" if args_ok else "not (rd.HardState, rd.Entries)"))
+    if not uncond and broken_is_violation:
+        R.violation("F4-save-conditional", dict(kind="tie-broken", summary=F4D_SUMMARY % (depth, args_ok)), found_input=False)
     if (not before or not exact) and broken_is_violation:
         R.violation("F4-persist-before-ack", dict(
             kind="tie-broken", order=order, expected=F4_EXPECTED,
             summary="fact F4 broken: the Ready arm of serveChannels runs %s; the recovery theorems (Recover.acked_survives, rep_save) assume "
                     "that an entry is sent, published and acknowledged only after the wal.Save that contains it returned" % " -> ".join(order)),
             found_input=False)
-    return dict(order=order, exact=exact, persist_first=before, unchecked=unchecked)
+    return dict(order=order, exact=exact, persist_first=before, unchecked=unchecked, unconditional=uncond, save_depth=depth)
 
 
 # ------------------------------------------------------------------------------------------ apply engine
